@@ -650,3 +650,88 @@ def opt_taint(ctx):
                                       'properties byte' % (expr_str(e)[:60], r))
     if n == 0:
         ctx.anchor_missing('arithmetic in writer constructors')
+
+
+def self_field_of_safe(x):
+    from lzlint.core import self_field_of
+    try:
+        return self_field_of(x) is not None
+    except Exception:
+        return False
+
+
+def _has_state_leaf(e):
+    """True if e mentions a local, parameter or object field outside the argument lists of the
+    input-read calls themselves."""
+    stack = [e]
+    while stack:
+        x = stack.pop()
+        if not isinstance(x, tuple):
+            continue
+        if x[0] == 'call' and x[1].split('::')[-1] in INPUT_CALLS:
+            continue
+        if x[0] in ('local', 'param'):
+            return True
+        if x[0] == 'field' and self_field_of_safe(x):
+            return True
+        for y in x[1:]:
+            if isinstance(y, tuple):
+                stack.append(y)
+            elif isinstance(y, list):
+                stack.extend(y)
+    return False
+
+
+INPUT_CALLS = ('read_u8', 'read_u16', 'read_u16_be', 'read_u32', 'read_u32_be', 'read_u64', 'from_le_bytes', 'from_be_bytes',
+               'parse_multibyte_integer', 'parse_multibyte_integer_from_reader')
+
+
+def _input_derived(e):
+    for x in expr_walk(e):
+        if x[0] == 'call' and x[1].split('::')[-1] in INPUT_CALLS:
+            return x[1].split('::')[-1]
+    return None
+
+
+@rule('INT-OVF-INPUT', ['C06'], floor=5)
+def int_ovf_input(ctx):
+    """Arithmetic applied directly to a value just read from the input (read_u8/u16/u32/u64,
+    from_*_bytes, multibyte integers) cannot overflow: every overflow assert in a decoder-reachable
+    function whose operand derives, within that function, from such a read is proven unreachable by
+    the interval analysis (type range of the field, refined by dominating checks)."""
+    F = ctx.facts
+    roots, _ = decoder_entry_points(F)
+    reach = F.reachable_fns(roots)
+    iv = Intervals(F, scope=set(reach))
+    n = 0
+    for p in sorted(reach):
+        f = F.by_path[p]
+        if f.kind == 'closure':
+            continue
+        prov = Prov(f)
+        bad = []
+        for bi, t in overflow_asserts(f):
+            pos = '%d:T' % bi
+            ops = [prov.operand(o, 0, pos) for o in t['msg_ops']]
+            src = None
+            for o in ops:
+                src = src or _input_derived(o)
+            if not src:
+                continue
+            # exact scope: operands are closed expressions over freshly read input fields and constants only
+            # (locals, parameters and struct fields carry run-time state and are out of scope: no widening)
+            if any(_has_state_leaf(o) for o in ops):
+                continue
+            n += 1
+            ok, detail = check_assert(iv, f, bi, t, prov)
+            key = '%s:%s:on-%s' % (f.key, t['msg'], src)
+            if ok:
+                ctx.ok(key + ('#%d' % n), f.loc(bi), detail)
+            else:
+                bad.append((bi, detail, src))
+        if bad:
+            ctx.violation('%s:input-arith-overflow' % f.key, f.loc(bad[0][0]),
+                          'arithmetic on a field read from the input can overflow (panic in debug builds, silent wrap in release); '
+                          '%d site(s): %s' % (len(bad), ' | '.join('%s %s' % (f.loc(b), d) for b, d, s in bad))[:700])
+    if n == 0:
+        ctx.anchor_missing('arithmetic on input-derived values')
